@@ -219,7 +219,9 @@ def run(ctx: lib.Ctx) -> None:
                 'gas units; distinct = distinct (mode, curve, kinds, constants, counter, consumptions)')
     # findings: attach matchers
     keys = {cv: [make_key(rng, cv) for _ in range(2)] for cv in CURVES}
-    bad_tables = tables(ctx)
+    import concurrent.futures
+    pool = concurrent.futures.ThreadPoolExecutor(max_workers=3)
+    fut_tables = pool.submit(tables, ctx)   # coqc runs concurrently with the implementation runs below
 
     cases = []
     for doc in ctx_corpus(ctx):
@@ -268,10 +270,17 @@ def run(ctx: lib.Ctx) -> None:
             # a listed witness no longer fails: the finding entry is stale (not an alarm about the property)
             ctx.extra.setdefault('stale_findings', []).append(case['witness'])
 
+    fut_abs = pool.submit(check_abstraction, ctx, meta)
     bad = ctx.coq_mismatches('fees', IMPORTS, 'run_case', 'report_eqb',
                              'bool * curve * N * N * N * N * list mcontent * list (list sim_result)',
                              'list (N * N * N * N) * list N * N * bool', coq_cases, prelude=PRELUDE, shard=250)
     ctx.extra['cases_underpaid'] = sum(1 for _, o in meta if not o['covers'])
+    bad_abs = fut_abs.result()
+    bad_tables = fut_tables.result()
+    pool.shutdown()
+
+    if reported == 0 and bad_abs and not bad:
+        ctx.violation('the abstraction content -> (kind, KT flag, rest) used by the fee model disagrees with the operation codec', bad_abs, found=False)
     if reported == 0 and (bad or bad_tables):
         # correspondence broke: search for a failing input among the disagreeing cases first
         found = False
@@ -294,6 +303,40 @@ def run(ctx: lib.Ctx) -> None:
                               replay_doc(c2, o2), found=True)
                 return
         ctx.violation('implementation no longer corresponds to the model the theorems are about', rep, found=found)
+
+
+KIND_IDX = list(KINDS)
+
+
+def check_abstraction(ctx, meta):
+    """The harness maps a filled content to (kind, destination-is-KT, rest).  Cross-check that mapping against the operation
+    codec of C06: Ops_proofs.fees_abstract (about which C24_size_is_forged_size is proved) computed by Coq on the same content."""
+    import c06 as C6
+    sample = []
+    for case, out in meta:
+        for f, sz in zip(out['final'], out['sizes']):
+            if len(sample) < ctx.n(90, 600) and (len(sample) < 8 * len({x[0]['kind'] for x in sample}) + 8 or ctx.rng.random() < 0.1):
+                sample.append((f, sz))
+    cases = []
+    for f, sz in sample:
+        z = sum(G.zlen(int(f[k])) for k in ('fee', 'counter', 'gas_limit', 'storage_limit'))
+        kt = str(f.get('destination', '')).startswith('KT')
+        cases.append((C6.c_content(f), f'({cN(KIND_IDX.index(f["kind"]))}, {cbool(kt)}, {cN(sz - z)}, {cN(sz)})'))
+    prelude = '''From PV Require Client.Fees.
+Definition kidx (k : Fees.mkind) : N := match k with Fees.KReveal => 0 | Fees.KTransaction => 1 | Fees.KOrigination => 2 | Fees.KDelegation => 3
+  | Fees.KRegisterGlobalConstant => 4 | Fees.KTransferTicket => 5 | Fees.KSrAddMessages => 6 | Fees.KSrExecuteOutbox => 7 end%N.
+Definition abs_of (c : content) : N * bool * N * N := match c with
+  | CManager h op => let a := fees_abstract h op in (kidx (Fees.mk a), Fees.to_kt a, Fees.rest a, Fees.size a)
+  | _ => (99, false, 0, 0)%N end.
+Definition abs_eqb (a b : N * bool * N * N) : bool := let '(a1, a2, a3, a4) := a in let '(b1, b2, b3, b4) := b in
+  N.eqb a1 b1 && Bool.eqb a2 b2 && N.eqb a3 b3 && N.eqb a4 b4.'''
+    bad = ctx.coq_mismatches('abstraction', 'From PV Require Import Codec.Zarith Codec.Ops Proofs.Ops_proofs.', 'abs_of', 'abs_eqb', 'content',
+                             'N * bool * N * N', cases, prelude=prelude, shard=50)
+    ctx.extra['abstraction_cases'] = len(cases)
+    if bad:
+        f, sz = sample[bad[0]]
+        return {'correspondence': 'C24/harness abstraction vs Ops_proofs.fees_abstract', 'content': f, 'forged_size': sz}
+    return None
 
 
 def search_failing(ctx, case, rng, keys):
